@@ -27,4 +27,25 @@ let do_coeffs () =
   print_string "end\n"
 
 
-let () = run_main ["kick", do_kick; "coeffs", do_coeffs]
+
+(* rot <id> <n> <it> cos sin d0 d1 z0 z1 ; ax (n) ; ay (n) ; data (n*n) *)
+let do_rot () =
+  let id = next () in
+  let n = nexti () in let it = nexti () in
+  let c = nextq () in let s = nextq () in let d0 = nextq () in let d1 = nextq () in
+  let z0 = nextq () in let z1 = nextq () in
+  let par = { rp_cos = c; rp_sin = s; rp_d0 = d0; rp_d1 = d1; rp_z0 = z0; rp_z1 = z1 } in
+  let ax = nextqs n in let ay = nextqs n in
+  let data = nextqs (n * n) in
+  let zn = z_of_int n and zit = z_of_int it in
+  Printf.printf "case %s\n" id;
+  print_string "defined";
+  List.iter (fun b -> print_string (if b then " 1" else " 0")) (rot_defined_list zn par ax ay);
+  print_newline ();
+  print_string "table";
+  List.iter (fun (i, w) -> Printf.printf " %s %s" (hex_of_z i) (tok_of_q w)) (rot_table_list zn zit par ax ay);
+  print_newline ();
+  print_qs "out" (rot_apply_list zn zit par ax ay data);
+  print_string "end\n"
+
+let () = run_main ["kick", do_kick; "coeffs", do_coeffs; "rot", do_rot]
